@@ -54,7 +54,7 @@ package db
 //@   ensures owned ==> discardDeferred
 //@   ensures errResult == nil ==> committed && !failed
 //@   ensures commitCalls <= 1
-//@   modifies failed, owned, discardDeferred, commitCalls, committed
+//@   modifies failed, owned, discardDeferred, commitCalls, committed, colSaves
 //@   tags C05
 //@
 //@ apply TxnAPI: (*collection).Create, (*collection).CreateMany, (*collection).Update, (*collection).Save,
